@@ -330,6 +330,11 @@ class ExprMixin:
     def getattr_ref(self, b: VRef, attr, st, cx, node=None):
         if attr in ("__module__", "__name__", "__qualname__", "__doc__"):
             return [(st, VStr(z3.FreshConst(z3.StringSort(), "dunder")))]
+        if b.cls is not None and not cx.spec:
+            for c in self.repo.mro(b.cls):
+                vc = self.reg.contracts.get(c + "." + attr)
+                if vc is not None and vc.virtual:
+                    return [(st, VFunc("contract", c + "." + attr, self_val=b, qn=c + "." + attr))]
         cands = self.candidate_classes(st, b)
         # class-level: properties and methods, grouped by implementation
         groups = {}
@@ -482,6 +487,10 @@ class ExprMixin:
                 s = TOpt(o.sort)
             a, b = coerce(a, s), coerce(b, s)
             return mk_val(z3.If(c, a.t, b.t), s)
+        if isinstance(a, VOpt) and not isinstance(b, VOpt) and b.sort == a.sort.inner:
+            a = mk_val(a.sort.the(a.t), a.sort.inner)
+        if isinstance(b, VOpt) and not isinstance(a, VOpt) and a.sort == b.sort.inner:
+            b = mk_val(b.sort.the(b.t), b.sort.inner)
         if isinstance(a, VTuple) and isinstance(b, VTuple) and len(a.items) == len(b.items):
             return VTuple([self.ite(c, x, y) for x, y in zip(a.items, b.items)], a.is_list)
         if isinstance(a, VTuple) and isinstance(b, VList):
@@ -1013,4 +1022,4 @@ SPEC_BUILTINS = {"implies", "iff", "old", "forall", "exists", "isinst", "cls_is"
                  "field", "len", "str", "all", "any", "range", "int", "bool", "isinstance", "type", "zip", "enumerate",
                  "list", "tuple", "concat", "prefix_of", "seq_eq", "allocated", "unchanged", "strlen", "substr",
                  "startswith", "endswith", "contains", "old_field", "replace", "min", "max", "abs", "index_of", "in_re_ws",
-                 "set_subset", "lemma", "dict_keys", "store", "const_map", "any_value", "u_is_str", "u_is_obj", "u_str", "u_obj", "monotone", "stable_except", "live", "float_text", "frame", "same_class", "is_new", "is_space", "str_repeat", "pigeonhole", "card", "result_is_new", "str_from_int", "at"}
+                 "set_subset", "lemma", "dict_keys", "store", "const_map", "any_value", "u_is_str", "u_is_obj", "u_is_list", "u_list", "u_str", "u_obj", "monotone", "stable_except", "live", "float_text", "frame", "same_class", "is_new", "is_space", "str_repeat", "pigeonhole", "card", "result_is_new", "str_from_int", "at"}
